@@ -18,7 +18,7 @@ function nm(v){
 	case 'undefined': return 'undefined';
 	case 'boolean': return v ? 'true' : 'false';
 	case 'number': return (v === 0 && 1/v < 0) ? '-0' : String(v);
-	case 'string': return JSON.stringify(v);
+	case 'string': return JSON.stringify(v).split(' ').join('\\x20'); // (observations are split at spaces)
 	case 'symbol': { var n = names.get(v); return n === undefined ? '@?' + String(v) : '@' + n; }
 	case 'bigint': return String(v) + 'n';
 	}
